@@ -519,7 +519,7 @@ func jobC10(c *rt.Ctx) {
 			continue
 		}
 		want, dec := ref.Decode(b)
-		in := append([]byte{}, b...)
+		in := atAlign(b)
 		var P, N Ge25519
 		ok1 := UnpackVartime(&P, in)
 		ok2 := UnpackNegativeVartime(&N, in)
@@ -863,4 +863,19 @@ func sparseCheckStrings() [][]byte {
 		}
 	}
 	return out
+}
+
+// atAlign returns a copy of b that starts at address = k (mod 8) inside a larger buffer and keeps
+// spare capacity behind it (callers hold keys and strings inside packed records, at any alignment).
+var alignCounter int
+
+func atAlign(b []byte) []byte {
+	alignCounter++
+	off := alignCounter & 7
+	buf := make([]byte, len(b)+24)
+	for i := range buf {
+		buf[i] = 0xA5
+	}
+	copy(buf[off:], b)
+	return buf[off : off+len(b)]
 }
